@@ -130,6 +130,11 @@ func cmdFunc(args []string) int {
 	fs.Parse(args)
 	tl := time.Now()
 	v, err := setup(*repo, "quick")
+	if err == nil {
+		for _, n := range v.loadNotes {
+			fmt.Println("   load note:", n)
+		}
+	}
 	if err != nil {
 		fmt.Fprintln(os.Stderr, err)
 		return 2
@@ -307,6 +312,17 @@ func cmdCheck(args []string) int {
 	var unclaimed []*Obligation
 	var unsup []string
 	var notes []string
+	notes = append(notes, v.loadNotes...)
+	{
+		var ws []string
+		for k := range v.wiring {
+			ws = append(ws, strings.TrimPrefix(k, "F:"))
+		}
+		sort.Strings(ws)
+		if len(ws) > 0 {
+			notes = append(notes, "fields treated as never re-assigned after construction (checked by a scan of all stores in the repository): "+strings.Join(ws, ", "))
+		}
+	}
 	trusted := map[string]bool{}
 	var fnames []string
 	for _, r := range results {
